@@ -179,10 +179,17 @@ let run_hist fl toks =
         (List.map (fun (n, p) -> ((4, int_of_n n), Printf.sprintf "4/%d/=%d" (int_of_n n) (List.length p.p_al.a_free))) g.g_v4
          @ List.map (fun (n, p) -> ((6, int_of_n n), Printf.sprintf "6/%d/=%d" (int_of_n n) (List.length p.p_al.a_free))) g.g_na
          @ List.map (fun (n, p) -> ((7, int_of_n n), Printf.sprintf "7/%d/=%d" (int_of_n n) (List.length p.d_al.a_free))) g.g_pd) in
+    let last3 w x = let h = hex_of_n w x in String.sub h (String.length h - 6) 6 in
+    let fr =
+      sorted_strings
+        (List.map (fun (n, p) -> ((4, int_of_n n), Printf.sprintf "4/%d/=%s" (int_of_n n) (String.concat "," (List.sort compare (List.map (last3 8) p.p_al.a_free))))) g.g_v4
+         @ List.map (fun (n, p) -> ((6, int_of_n n), Printf.sprintf "6/%d/=%s" (int_of_n n) (String.concat "," (List.sort compare (List.map (last3 32) p.p_al.a_free))))) g.g_na
+         @ List.map (fun (n, d) -> ((7, int_of_n n), Printf.sprintf "7/%d/=%s" (int_of_n n)
+                                      (String.concat "," (List.sort compare (List.map (fun i -> let h = hex_of_n 32 (index_to_prefix d i) in String.sub h 10 6) d.d_al.a_free))))) g.g_pd) in
     let exp_st = keyed (expected_store y.y_live) in
     let exp_ls = sorted_strings (List.map (show_lease g) (expected_leases g y.y_live)) in
     String.concat " " [ head; "store=[" ^ String.concat ";" st ^ "]"; "leases=[" ^ String.concat ";" ls ^ "]";
-                        "avail=[" ^ String.concat ";" av ^ "]";
+                        "avail=[" ^ String.concat ";" av ^ "]"; "free=[" ^ String.concat ";" fr ^ "]";
                         (* the repaired variant states the property's verdict: once every message of both SRGs has been
                            delivered (or covered by a bulk sync) store and pools MUST be right; if the repaired model
                            itself got it wrong the line says so and cannot match the implementation silently *)
